@@ -288,30 +288,13 @@ func (te *TemplateEngine) parseTemplate(template *Template) error {
 		baseName := extendsMatches[1]
 		baseTemplate, err := te.getTemplateInternal(baseName)
 		if err == nil {
+			// 只记录继承关系；块重写在渲染时解析（见 renderTemplateWithOverrides），
+			// 加载子模板不得修改（可能被其他模板共享的）父模板
 			template.Parent = baseTemplate
-			// 处理块重写
-			te.processBlockOverrides(template, baseTemplate)
 		}
 	}
 
 	return nil
-}
-
-// processBlockOverrides 处理块重写
-func (te *TemplateEngine) processBlockOverrides(childTemplate, parentTemplate *Template) {
-	// 遍历子模板的块定义，检查是否重写父模板的块
-	for blockName, childBlock := range childTemplate.DefinedBlocks {
-		if parentBlock, exists := parentTemplate.DefinedBlocks[blockName]; exists {
-			// 标记父模板块被重写
-			parentBlock.IsOverridden = true
-			parentBlock.Content = childBlock.Content
-		}
-	}
-
-	// 递归处理父模板的父模板
-	if parentTemplate.Parent != nil {
-		te.processBlockOverrides(childTemplate, parentTemplate.Parent)
-	}
 }
 
 // RenderToDocument 渲染模板到新文档
@@ -352,26 +335,38 @@ func (te *TemplateEngine) RenderToDocument(templateName string, data *TemplateDa
 
 // renderTemplate 渲染模板
 func (te *TemplateEngine) renderTemplate(template *Template, data *TemplateData) (string, error) {
+	return te.renderTemplateWithOverrides(template, data, nil)
+}
+
+// renderTemplateWithOverrides 渲染模板；overrides 是更下层（派生）模板重写的块内容（块名 -> 内容）。
+// 继承在渲染时解析：每个模板把自己定义的块加入重写表（派生层次越深优先级越高），
+// 最终由继承链根模板的内容套用重写表。模板对象本身在加载和渲染时都不会被修改。
+func (te *TemplateEngine) renderTemplateWithOverrides(template *Template, data *TemplateData, overrides map[string]string) (string, error) {
 	var content string
 
 	// 处理继承：如果有父模板，使用父模板作为基础
 	if template.Parent != nil {
-		// 渲染父模板作为基础内容
-		parentContent, err := te.renderTemplate(template.Parent, data)
+		merged := make(map[string]string, len(overrides)+len(template.DefinedBlocks))
+		for name, block := range template.DefinedBlocks {
+			merged[name] = block.DefaultContent
+		}
+		for name, blockContent := range overrides {
+			merged[name] = blockContent
+		}
+
+		// 渲染父模板作为基础内容（带上本模板及其派生模板的块重写）
+		parentContent, err := te.renderTemplateWithOverrides(template.Parent, data, merged)
 		if err != nil {
 			return "", err
 		}
 		content = parentContent
-
-		// 应用子模板的块重写到父模板内容中
-		content = te.applyBlockOverrides(content, template)
 	} else {
 		// 没有父模板，直接使用当前模板内容
 		content = template.Content
 	}
 
 	// 渲染块定义
-	content = te.renderBlocks(content, template, data)
+	content = te.renderBlocks(content, overrides)
 
 	// 渲染变量
 	content = te.renderVariables(content, data.Variables)
@@ -388,45 +383,17 @@ func (te *TemplateEngine) renderTemplate(template *Template, data *TemplateData)
 	return content, nil
 }
 
-// applyBlockOverrides 将子模板的块重写应用到父模板内容中
-func (te *TemplateEngine) applyBlockOverrides(content string, template *Template) string {
-	// 将子模板的块内容替换父模板中对应的块占位符
-	blockPattern := regexp.MustCompile(`(?s)\{\{#block\s+"([^"]+)"\}\}.*?\{\{/block\}\}`)
-
-	return blockPattern.ReplaceAllStringFunc(content, func(match string) string {
-		matches := blockPattern.FindStringSubmatch(match)
-		if len(matches) >= 2 {
-			blockName := matches[1]
-			// 如果子模板中定义了这个块，使用子模板的内容
-			if childBlock, exists := template.DefinedBlocks[blockName]; exists {
-				return childBlock.Content
-			}
-		}
-		return match // 保持原样
-	})
-}
-
-// renderBlocks 渲染块定义
-func (te *TemplateEngine) renderBlocks(content string, template *Template, data *TemplateData) string {
+// renderBlocks 渲染块定义：被派生模板重写的块使用重写内容，否则使用块自身的默认内容
+func (te *TemplateEngine) renderBlocks(content string, overrides map[string]string) string {
 	blockPattern := regexp.MustCompile(`(?s)\{\{#block\s+"([^"]+)"\}\}(.*?)\{\{/block\}\}`)
 
 	return blockPattern.ReplaceAllStringFunc(content, func(match string) string {
 		matches := blockPattern.FindStringSubmatch(match)
 		if len(matches) >= 3 {
-			blockName := matches[1]
-			blockContent := matches[2]
-
-			// 检查是否有定义的块
-			if block, exists := template.DefinedBlocks[blockName]; exists {
-				// 如果块被重写，使用重写的内容，否则使用默认内容
-				if block.IsOverridden {
-					return block.Content
-				}
-				return block.DefaultContent
+			if blockContent, overridden := overrides[matches[1]]; overridden {
+				return blockContent
 			}
-
-			// 如果没有定义块，使用原始内容
-			return blockContent
+			return matches[2]
 		}
 		return match
 	})
